@@ -668,17 +668,28 @@ class C07(Prop):
     rule = ("from valid current-version documents of each format (the library's own output for generated valid objects): value replacement at a uniformly chosen "
             "documented field with a value outside its domain after the reader's coercion, header version mangled, type gate probed at 1.0/1.1/1.2 with every "
             "format's type and with the type missing, each required key/section/line deleted, image cell keyed by a source/unknown arch, misaligned child UID, "
-            "child arch outside its parent's; correspondence: ok/err of real loads vs the loads model (all seven formats in full for current-format documents, "
-            "incl. the composeinfo forest rebuild and every treeinfo section); oracle: corrupted => exception; valid => loaded; every part of a loaded object satisfies the catalogue")
+            "child arch outside its parent's, child lists forming a cycle (reachable from a top-level variant: refused; unreachable: never read); a third of "
+            "the cases carry the same content as a document of an OLDER format version (every boundary version per format read from the source's gates: "
+            "composeinfo 0.0..1.1, images 0.0..1.1, rpms 0.0..1.1, modules/extra_files 0.0..1.1, treeinfo 0.1..1.1 and files without a header; spec-level "
+            "down-converters of formats.legacy), clean or with one corruption: required key/section deleted, value outside its domain, and what only the older "
+            "readers do (id without a date / with an unknown type suffix below 0.3, `release` instead of `product` at <= 0.3, prefix-related child with a foreign "
+            "arch / misaligned uid below 1.0, unknown category / arch / absolute path / malformed NEVRA in a 0.3 manifest, unknown arch of an images cell at <= 1.1, "
+            "blank arch / bad numbers in a header-less treeinfo); correspondence: ok/err of real loads vs the loads model, total over versions (all seven "
+            "formats, incl. the composeinfo forest rebuild, every treeinfo section and every legacy reader); oracle: corrupted => exception; valid => loaded; "
+            "every part of a loaded object satisfies the catalogue; an object loaded from an older document is not refused by dumps()")
     assumptions = ["json.load / configparser are the trusted parsers; the INI document handed to the model is configparser's own parse of the same text",
                    "bool()-coerced fields (bootable, final, is_layered, internal) have no rejecting set and are not corrupted",
                    "the rule of a field is applied AFTER the reader's documented coercion: a falsy label in a document ('' 0 false [] {} null) is read as 'no label' "
                    "(`data.get('label') or None`) and the document loads (decided: not a C07 violation; what C07 guarantees is that the LOADED object satisfies "
                    "the write-side constraints, which it does); such documents are generated with expectation 'accept'. On the write side (C06) a blank label '' "
                    "in an object is outside the label's domain and must be refused",
-                   "the readers a version gate selects for documents older than 1.0 (composeinfo, rpms <= 0.3) / 0.4 (treeinfo, incl. files without a header) are not "
-                   "modelled (C05): the model answers Other there, C07_sound_* say nothing about such documents; the value of float() is modelled for plain decimal "
-                   "notation only (its syntax errors exactly)"]
+                   "the value of float() is modelled for plain decimal notation only (its syntax errors exactly): a treeinfo timestamp in exponent notation is "
+                   "outside the model (Other), also in the [general] section of a header-less file",
+                   "documents of older formats: the legacy-specific reader steps are C05's models (get_date_type_respin, the 0.3 manifest replayed through the C12 "
+                   "model of Rpms.add, prefix-derived variant table, the treeinfo <= 0.3 / header-less reader on the typed INI document); a 0.3 manifest with a "
+                   "signing key that is neither a string nor null is outside the model (Other)",
+                   "a composeinfo child-list cycle none of whose members is a top-level variant is never read: the document loads without those entries (the "
+                   "loaded object satisfies every rule; expectation 'any', outcome recorded in stats.unreachable_cycle_outcome)"]
     partial = {}
 
     def __init__(self):
@@ -1032,6 +1043,6 @@ PROP = C07()
 
 MANIFEST = dict(
     technique="Lean 4 proof over a fill+checks model of loads(): validate() placement in every section reader read from the regenerated call structure (decide), header version/type gate from the regenerated gate, rule catalogue inclusion (C06); differential correspondence of the ok/err outcome; oracle on the real library with document corruptions",
-    text="C07_flags: every section reader ends by validating what it filled and loads() validates the top-level object (decide on Generated/Structure.lean). C07_sound_<format>: loads d = ok x => every part of x satisfies the catalogue (all seven formats; composeinfo: every variant of the forest rebuilt from the document at any depth; treeinfo: every section and variant). C07_header: a successful load has a version matching ^\\d+\\.\\d+$ and, when the generated gate (>= (1,1)) holds, the class's own type. C07_gate_boundary: the gate is exactly >= (1,1). C07_required_*: deleting header/version/type(>=1.1)/payload/compose/compose keys/payload table yields an error.",
-    note="Only ok/err is observed (any exception class). Readers of formats older than 1.0 are not modelled. Known finding F15 (trailing line feed accepted by `$`).",
+    text="C07_flags: every section reader ends by validating what it filled and loads() validates the top-level object (decide on Generated/Structure.lean). C07_legacy_dispatch(_add/_treeinfo): every legacy reader is reached only through its class's dispatcher under the generated gate and the dispatcher validates after the dispatch; rpms deserialize_0_3 and images _add_1_1 file through add. C07_gates_total / C07_ti_gates_total: every gate has a verdict for every version. C07_sound_<format>_all_versions (composeinfo, images, rpms, treeinfo): loads d = ok x for a document of ANY format version (and a treeinfo without header) => every part of x satisfies the catalogue; rpms: a <= 0.3 manifest was accepted entry by entry by the add model. C07_compose_legacy_decoded, C07_required_product, kernel-evaluated witnesses for 0.2 composeinfo / 0.3 rpms / header-less and 0.3 treeinfo. C07_sound_<format>: loads d = ok x => every part of x satisfies the catalogue (all seven formats; composeinfo: every variant of the forest rebuilt from the document at any depth; treeinfo: every section and variant). C07_header: a successful load has a version matching ^\\d+\\.\\d+$ and, when the generated gate (>= (1,1)) holds, the class's own type. C07_gate_boundary: the gate is exactly >= (1,1). C07_required_*: deleting header/version/type(>=1.1)/payload/compose/compose keys/payload table yields an error.",
+    note="Only ok/err is observed (any exception class). The load models are total over header versions (legacy-specific steps are C05's models). Known finding F15 (trailing line feed accepted by `$`).",
     ref="7/C07")
